@@ -205,9 +205,139 @@ def focus_blocks(case, rnd):
     return case
 
 
+# ------------------------------------------------------------------ input FORMS of the numbers
+# A whole number can reach the constructor as Python int, numpy integer, Python float or numpy float, a price series as an
+# array of integer or float dtype (or, for contracts, as a list of ints).  The case keeps the exact VALUE in `args` /
+# `prices` (that is what the model and the oracle read); the record `forms` = {'args': {param: form}, 'prices': {key: form}}
+# only says in which form the real objects get it.  A form that cannot hold the value exactly is never applied.
+FORM_PARAMS = ('size', 'cap_in', 'cap_out', 'start_level', 'end_level', 'eff_in', 'inflow', 'cost_in', 'cost_out',
+               'cost_store', 'max_store_duration', 'wacc')
+SCALAR_FORMS = {'float': float, 'np.float64': np.float64, 'int': int, 'np.int64': np.int64, 'np.int32': np.int32}
+INT_FORMS = ('int', 'np.int64', 'np.int32')
+ARRAY_FORMS = {'float64': lambda v: np.asarray(v, dtype=np.float64), 'int64': lambda v: np.asarray([int(x) for x in v], dtype=np.int64),
+               'int32': lambda v: np.asarray([int(x) for x in v], dtype=np.int32), 'list-int': lambda v: [int(x) for x in v]}
+
+
+def is_whole(v):
+    return isinstance(v, (int, float)) and not isinstance(v, bool) and float(v) == int(v) and abs(v) < 2 ** 31
+
+
+def to_form(v, form):
+    """the number v in the given form; the value itself never changes (else the plain float is kept)"""
+    if form in INT_FORMS and not is_whole(v):
+        return float(v)
+    out = SCALAR_FORMS[form](int(v) if form in INT_FORMS else v)
+    return out if out == v else float(v)
+
+
+def apply_forms(args, prices, forms):
+    args = dict(args)
+    for k, form in forms.get('args', {}).items():
+        if k in args and isinstance(args[k], (int, float)) and not isinstance(args[k], bool):
+            args[k] = to_form(args[k], form)
+    prices = dict(prices)
+    for k, form in forms.get('prices', {}).items():
+        if k in prices:
+            v = [float(x) for x in np.asarray(prices[k], dtype=float)]
+            if form != 'float64' and not all(is_whole(x) for x in v):
+                continue
+            prices[k] = ARRAY_FORMS[form](v)
+    return args, prices
+
+
+def draw_forms(case, rnd, p_int=0.75):
+    """per numeric parameter and per price series a form drawn from the seed: whole numbers as int / numpy integer with
+    probability p_int, everything else as Python or numpy float.  Values are untouched."""
+    a = case['args']
+    fa, fp = {}, {}
+    for k in FORM_PARAMS:
+        if k not in a or a[k] is None:
+            continue
+        if is_whole(a[k]) and rnd.random() < p_int:
+            fa[k] = rnd.choice(['int', 'int', 'int', 'np.int64', 'np.int32'])
+        else:
+            fa[k] = rnd.choice(['float', 'float', 'np.float64'])
+    for k, v in case['prices'].items():
+        if all(is_whole(x) for x in v) and rnd.random() < p_int:
+            # Storage reads its own price series as an array (documented so); contracts also take lists
+            fp[k] = rnd.choice(['int64', 'int64', 'int32'] + ([] if k == a.get('price') else ['list-int']))
+        else:
+            fp[k] = 'float64'
+    case['forms'] = {'args': fa, 'prices': fp}
+    return case
+
+
+def focus_forms(case, rnd):
+    """raise the density of WHOLE-NUMBER parameters (which a user writes as 4, not 4.0) next to fractional ones: whole size and
+    start level with a fractional end level and vice versa, whole rates / costs / inflow / holding limit / price series; often
+    without inflow and blocks (the plain level rows); then a form is drawn for every number (draw_forms)"""
+    import math
+    a = case['args']
+    if rnd.random() < 0.85:
+        a['size'] = float(rnd.randint(1, 8))
+    size = a['size']
+    n = int(math.floor(size))
+
+    def whole():
+        return float(rnd.randint(0, n))
+
+    def frac():
+        if size <= 0:
+            return 0.0
+        v = rnd.randint(0, max(0, int(math.ceil(size)) - 1)) + rnd.randint(1, 7) / 8.0
+        return v if v <= size else gen.q8(rnd, 0, size)
+    mode = rnd.choice(['whole-start/frac-end', 'whole-start/frac-end', 'frac-start/whole-end', 'both-whole', 'both-frac', 'as-drawn'])
+    if mode == 'whole-start/frac-end':
+        a['start_level'], a['end_level'] = whole(), frac()
+    elif mode == 'frac-start/whole-end':
+        a['start_level'], a['end_level'] = frac(), whole()
+    elif mode == 'both-whole':
+        a['start_level'], a['end_level'] = whole(), whole()
+    elif mode == 'both-frac':
+        a['start_level'], a['end_level'] = frac(), frac()
+    else:
+        # the generator keeps 0 <= level <= size (the constructor does not check the end level, see PARTIAL of C05)
+        for k in ('start_level', 'end_level'):
+            if a.get(k, 0.) > size:
+                a[k] = gen.q8(rnd, 0, size)
+    if rnd.random() < 0.6:
+        a.pop('inflow', None)
+        a.pop('block_size', None)
+    elif 'inflow' in a and rnd.random() < 0.5:
+        a['inflow'] = float(round(a['inflow']))          # whole, possibly an explicit 0
+    for k in ('cap_in', 'cap_out'):
+        if rnd.random() < 0.6:
+            a[k] = float(max(1, math.ceil(a[k])))
+    if 'eff_in' in a and rnd.random() < 0.3:
+        a['eff_in'] = 1.0
+    for k in ('cost_in', 'cost_out', 'cost_store'):
+        if k in a and rnd.random() < 0.5:
+            a[k] = float(rnd.randint(0, 2))
+    if a.get('max_store_duration') is not None and rnd.random() < 0.5:
+        a['max_store_duration'] = float(math.ceil(a['max_store_duration']))
+    if 'wacc' in a and rnd.random() < 0.3:
+        a['wacc'] = float(rnd.choice([0, 1]))
+    for k in list(case['prices']):
+        if rnd.random() < 0.5 and k != 'short':
+            case['prices'][k] = [float(round(v)) for v in case['prices'][k]]
+    case.setdefault('features', []).append('focus:forms:' + mode)
+    return draw_forms(case, rnd, p_int=0.85)
+
+
 def features(case):
     a = case['args']
     f = list(case.get('features', []))
+    fo = case.get('forms')
+    if fo:
+        used = sorted(set(fo.get('args', {}).values()) | set('array:' + v for v in fo.get('prices', {}).values()))
+        f += ['form:' + u for u in used]
+        ia = [k for k, v in fo.get('args', {}).items() if v in INT_FORMS]
+        if 'start_level' in ia and 'size' in ia:
+            f.append('form:int-size-and-start')
+            if not is_whole(a.get('end_level', 0.)) and not a.get('inflow') and 'block_size' not in a:
+                f.append('form:int-size-and-start,frac-end,plain-rows')
+        if 'end_level' in ia and not is_whole(a.get('start_level', 0.)):
+            f.append('form:int-end,frac-start')
     f.append('nodes:%d' % len(case['nodes']))
     for k in ('eff_in', 'cost_in', 'cost_out', 'cost_store', 'inflow', 'price', 'wacc', 'no_simult_in_out',
               'max_store_duration', 'block_size'):
@@ -247,6 +377,9 @@ def _objects(case):
     args = scen.dec(copy.deepcopy(case['args']))
     nn = [nodes[n] for n in case['nodes']]
     prices = {k: np.asarray(v, dtype=float) for k, v in case['prices'].items()}
+    if case.get('forms'):
+        # the same VALUES handed over in other Python / numpy number forms (int, np.int64, int arrays ...)
+        args, prices = apply_forms(args, prices, case['forms'])
     return tg, nodes, args, nn, prices
 
 
